@@ -72,7 +72,7 @@ fn classify_error(msg: &str) -> String {
 }
 
 /// Bundles `src` under `mode` and reports which file's marker ended up in the bundle.
-fn bundle_target(fs: &[String], src: &str, entry: &str, mode: &str, mfn: &str) -> String {
+fn bundle_target(fs: &[String], src: &str, entry: &str, mode: &str, mfn: &str, prefix: &str) -> String {
     let resources = setup(fs, src, entry);
     let cfg_text = format!(
         "{{ generator: 'dense', rules: [], bundle: {{ require_mode: {} }} }}",
@@ -82,8 +82,8 @@ fn bundle_target(fs: &[String], src: &str, entry: &str, mode: &str, mfn: &str) -
         Ok(c) => c,
         Err(e) => return format!("!config:{}", e),
     };
-    let config = config.with_location(PROJ);
-    let input = format!("{}/{}", PROJ, src);
+    let config = config.with_location(format!("{}{}", prefix, PROJ));
+    let input = format!("{}{}/{}", prefix, PROJ, src);
     let r = guarded(|| {
         darklua_core::process(
             &resources,
@@ -114,7 +114,7 @@ fn bundle_target(fs: &[String], src: &str, entry: &str, mode: &str, mfn: &str) -
 }
 
 /// Runs convert_require current -> target on the entry and returns the new require argument.
-fn convert(fs: &[String], src: &str, entry: &str, cur: &str, tgt: &str, mfn: &str) -> Result<String, String> {
+fn convert(fs: &[String], src: &str, entry: &str, cur: &str, tgt: &str, mfn: &str, prefix: &str) -> Result<String, String> {
     let resources = setup(fs, src, entry);
     let cfg_text = format!(
         "{{ generator: 'dense', rules: [{{ rule: 'convert_require', current: {}, target: {} }}] }}",
@@ -122,8 +122,8 @@ fn convert(fs: &[String], src: &str, entry: &str, cur: &str, tgt: &str, mfn: &st
         mode_config(tgt, mfn)
     );
     let config: Configuration = json5::from_str(&cfg_text).map_err(|e| format!("!config:{}", e))?;
-    let config = config.with_location(PROJ);
-    let input = format!("{}/{}", PROJ, src);
+    let config = config.with_location(format!("{}{}", prefix, PROJ));
+    let input = format!("{}{}/{}", prefix, PROJ, src);
     let r = guarded(|| {
         darklua_core::process(
             &resources,
@@ -160,12 +160,13 @@ pub fn main(args: &[String]) -> i32 {
         let mfn = c["mfn"].as_str().unwrap();
         let fs: Vec<String> = c["fs"].as_array().unwrap().iter().map(|v| v.as_str().unwrap().to_string()).collect();
         let entry = format!("return require('{}')", req);
-        let got = bundle_target(&fs, src, &entry, mode, mfn);
+        let prefix = c["prefix"].as_str().unwrap_or("");
+        let got = bundle_target(&fs, src, &entry, mode, mfn, prefix);
         // "?path": resolved to `path`, which darklua then refused to load (reported as an error value)
         let unloadable = got.starts_with('?');
         let got = got.trim_start_matches('?').to_string();
         let mut obs = json!({
-            "id": c["id"], "mode": mode, "req": req, "src": src, "mfn": mfn, "fs": fs,
+            "id": c["id"], "prefix": prefix, "mode": mode, "req": req, "src": src, "mfn": mfn, "fs": fs,
             "reqp": path_segs(req), "srcp": path_segs(src), "mfnp": seg_json(mfn),
             "fsp": fs.iter().map(|f| path_segs(f)).collect::<Vec<_>>(),
             "got": got, "gotp": if got.starts_with('!') { json!([]) } else { path_segs(&got) },
@@ -176,10 +177,10 @@ pub fn main(args: &[String]) -> i32 {
             let tgt = if mode == "path" { "luau" } else { "path" };
             obs["conv"] = json!(1);
             obs["target"] = json!(tgt);
-            match convert(&fs, src, &entry, mode, tgt, mfn) {
+            match convert(&fs, src, &entry, mode, tgt, mfn, prefix) {
                 Ok(newreq) => {
                     let entry2 = format!("return require('{}')", newreq);
-                    let got2 = bundle_target(&fs, src, &entry2, tgt, mfn);
+                    let got2 = bundle_target(&fs, src, &entry2, tgt, mfn, prefix);
                     obs["newreqp"] = path_segs(&newreq);
                     obs["newreq"] = json!(newreq);
                     obs["got2p"] = if got2.starts_with('!') { json!([]) } else { path_segs(&got2) };
